@@ -95,6 +95,45 @@ def noise(rng, doc):
                 kp.dumps(doc, spine_types=['**kern'], include=kp.BEKERN_CATEGORIES if hasattr(kp, 'BEKERN_CATEGORIES') else None, exclude=[rng.choice(cats)])
         except Exception:  # noqa  (out-of-range measures, unknown spines ...: the outcome of the noise is irrelevant)
             pass
+    # objects the library hands out belong to the caller: editing them must not reach into the library
+    if rng.random() < 0.5:
+        try:
+            from kernpy.core import ExportOptions
+            k = rng.randrange(6)
+            if k == 0:
+                o = ExportOptions()
+                o.spine_types.discard('**text') if hasattr(o.spine_types, 'discard') else o.spine_types.clear()
+                o.token_categories.clear() if hasattr(o.token_categories, 'clear') else None
+            elif k == 1:
+                o = ExportOptions.default()
+                if hasattr(o.spine_types, 'add'):
+                    o.spine_types.add('**nonsense')
+                else:
+                    o.spine_types.append('**nonsense')
+            elif k == 2:
+                v = TC.valid()
+                v -= {TC.DECORATION, TC.LYRICS, TC.BARLINES}
+                a = TC.all()
+                a.clear()
+            elif k == 3:
+                v = TC.valid(include=[TC.CORE], exclude=[TC.DURATION])
+                v.clear()
+                n = TC.nodes(TC.CORE)
+                n.clear() if hasattr(n, 'clear') else None
+            elif k == 4:
+                l = kp.spine_types(doc)
+                l.clear()
+                l2 = kp.spine_types(doc, headers=['**kern'])
+                l2.append('**x')
+            else:
+                t = doc.get_all_tokens()
+                t.clear()
+                u = doc.get_unique_token_encodings()
+                u.clear() if hasattr(u, 'clear') else None
+                m = doc.get_metacomments()
+                m.clear() if hasattr(m, 'clear') else None
+        except Exception:  # noqa
+            pass
 
 
 def nontrivial(case):
